@@ -5,41 +5,64 @@ From Desper Require Import Lib.Alist Tree.C12Model Tree.C12Proofs.
 Import ListNotations.
 Open Scope Z_scope.
 
-(* Every trace of observations that the model of Handle / the access paths
-   accepts satisfies the property: per handle, a loading access loads iff no
-   access happened since the last clear (or ever), every access returns the
-   object of that one load, get() never loads, and cached predicts whether
-   the next access loads. No bound on trace length or number of handles. *)
+(* Every trace of observations that the model of Handle, of the six access
+   paths and of Loop.switch accepts satisfies the property: per handle, a
+   loading access loads iff no access happened since the last clear (or
+   ever), every access returns the object of that one load, get() never
+   loads, cached predicts whether the next access loads, and a loop switch is
+   (optional clear of the handle left) + (optional clear of the target) + an
+   access of the target. No bound on trace length or number of handles. *)
 Theorem C12_load_at_most_once :
   forall tr : trace, wf_b tr = true -> known_b tr = false ->
                      accepts tr = true -> holds tr.
 Proof. intros tr _ _. exact (accepts_holds tr). Qed.
 Print Assumptions C12_load_at_most_once.
 
-(* reading of [holds] on raw observations: once a handle has been accessed
-   and as long as it is not cleared, every observation of it reports the
-   same load count *)
+(* reading of [holds] on raw observations (so that the boolean spec machine
+   is not itself taken on trust): once a handle has been accessed, and as
+   long as nothing clears it -- neither clear() nor a switch with the
+   matching clear flag -- every observation of it reports the same load
+   count: no further load, through whatever path *)
 Theorem C12_loads_do_not_move_between_clears :
   forall tr t t' h n,
-    spec_run t tr = Some t' -> no_clear h tr = true -> sget t h = (n, true) ->
+    spec_run t tr = Some t' -> no_clear h (sp_cur t) tr = true ->
+    sget (sp_h t) h = (n, true) ->
     forall o ob, In (o, ob) tr -> touches h o = true -> o_loads ob = n.
-Proof. intros tr t t' h n H1 H2 H3. exact (proj2 (loads_stable_when_loaded tr t t' h n H1 H2 H3)). Qed.
+Proof.
+  intros tr t t' h n H1 H2 H3.
+  exact (proj2 (loads_stable_when_loaded tr t t' h n H1 H2 H3)).
+Qed.
 Print Assumptions C12_loads_do_not_move_between_clears.
 
+(* ... and the first loading access after a clear loads exactly once *)
+Theorem C12_first_access_after_clear_loads :
+  forall t h p ob t' n,
+    spec_step t (OAccess h p) ob = Some t' -> loading p = true ->
+    sget (sp_h t) h = (n, false) ->
+    o_loads ob = n + 1 /\ sget (sp_h t') h = (n + 1, true).
+Proof. exact first_access_loads. Qed.
+Print Assumptions C12_first_access_after_clear_loads.
+
 (* non-vacuity: a concrete trace meets the premises; a reloading
-   implementation's trace and a stale-cached flag are rejected by the property *)
+   implementation's trace and a switch that forgets to clear are rejected *)
 Definition ex_ok : trace :=
   [ (OCached 1, {| o_loads := 0; o_flag := false |});
     (OAccess 1 PItem, {| o_loads := 1; o_flag := true |});
     (OAccess 1 PSAttr, {| o_loads := 1; o_flag := true |});
-    (OAccess 2 PSwitch, {| o_loads := 1; o_flag := true |});
-    (OCached 1, {| o_loads := 1; o_flag := true |});
-    (OClear 1, {| o_loads := 1; o_flag := true |});
-    (OAccess 1 PGet, {| o_loads := 1; o_flag := true |});
-    (OAccess 1 PCall, {| o_loads := 2; o_flag := true |}) ].
+    (OSwitch 2 true false, {| o_loads := 1; o_flag := true |});
+    (OSwitch 1 true true, {| o_loads := 2; o_flag := true |});
+    (OCached 2, {| o_loads := 1; o_flag := false |});
+    (OCached 1, {| o_loads := 2; o_flag := true |});
+    (OClear 1, {| o_loads := 2; o_flag := true |});
+    (OAccess 1 PGet, {| o_loads := 2; o_flag := true |});
+    (OAccess 1 PCall, {| o_loads := 3; o_flag := true |}) ].
 Example C12_nonvacuous : wf_b ex_ok = true /\ known_b ex_ok = false /\ accepts ex_ok = true.
 Proof. vm_compute. auto. Qed.
 Example C12_reload_rejected :
   holds_b [ (OAccess 1 PCall, {| o_loads := 1; o_flag := true |});
             (OAccess 1 PItem, {| o_loads := 2; o_flag := true |}) ] = false.
+Proof. vm_compute. reflexivity. Qed.
+Example C12_switch_without_clear_rejected :
+  holds_b [ (OSwitch 1 false false, {| o_loads := 1; o_flag := true |});
+            (OSwitch 1 false true, {| o_loads := 1; o_flag := true |}) ] = false.
 Proof. vm_compute. reflexivity. Qed.
